@@ -285,7 +285,8 @@ class Gen:
         # removal command: it is reached through a virtual node produced by ... (the tool has no outputs), so the
         # generator builds it directly by command key instead: see bs_driver BUILD of target "s" -> handled below
         allpats = sorted({p for n in self.nodes.values() for p in n["filt"]})
-        case = dict(nodes=self.nodes, fs0=self.fs0, steps=steps, paths=self.paths, focus=self.focus)
+        case = dict(nodes=self.nodes, fs0=self.fs0, steps=steps, paths=self.paths, focus=self.focus,
+                    procs=self.rng.random() < 0.3)        # every frontend in a process of its own
         finish_case(case)
         for p, e in case["fs0"].items():
             e["hid"] = [pat for pat in allpats if fnmatch.fnmatchcase(os.path.basename(p), pat)]
